@@ -13,7 +13,7 @@ CHECKS = {
             "Trusts num-bigint integer arithmetic and BigDecimal::as_bigint_and_exponent as the observation point. Does not establish absence outside the explored cases.",
             "5 C01"),
     "C02": ("exhaustive enumeration of word-boundary twins + proptest generation, differential against the exact order of rationals, release and debug-assertion builds",
-            "Exploration with an exhaustively enumerated sub-scope: all 1- and 2-word operands from the 32-bit carry/overflow boundary words x scale gaps x {twin, +1, -1} x signs; an exhaustive sweep of EVERY scale gap 1..1500 (5000 thorough) over coefficients around powers of two and ten with decimal and binary-structured neighbours (+-1, +2^32 .. +2^192); value-equal pairs with scale gaps of 10^4..3*10^6 (the only inputs on which the float estimate of the early-out decides); generated twins/neighbours/same-magnitude pairs up to 3000 digits, scale differences beyond 2^63, u64/u128 straddles, sort/max/min vectors; plain, sign-flipped and abs references. Every operator on BigDecimal and BigDecimalRef is compared with the oracle order; panics are violations (second build with debug assertions and overflow checks).",
+            "Exploration with an exhaustively enumerated sub-scope: all 1- and 2-word operands from the 32-bit carry/overflow boundary words x scale gaps x {twin, +1, -1} x signs; an exhaustive sweep of EVERY scale gap 1..1500 (5000 thorough) over coefficients around powers of two and ten with decimal and binary-structured neighbours (+-1, +2^32 .. +2^192); value-equal pairs with scale gaps of 10^4..10^6 (the only inputs on which the float estimate of the early-out decides); generated twins/neighbours/same-magnitude pairs up to 3000 digits, scale differences beyond 2^63, u64/u128 straddles, sort/max/min vectors; plain, sign-flipped and abs references. Every operator on BigDecimal and BigDecimalRef is compared with the oracle order; panics are violations (second build with debug assertions and overflow checks).",
             "Oracle: adjusted-exponent-first exact comparison on (BigInt, i128). Trusts num-bigint.",
             "5 C02"),
     "C03": ("exhaustive small-scope enumeration + proptest generation of value-equal representation pairs; byte-stream comparison through a recording Hasher",
